@@ -23,7 +23,8 @@ Print Assumptions wire_is_spec.
 Theorem client_status : forall ops,
   fst (fst (client (run ops))) =
   match first_commit ops with
-  | Some (ORedirect _ c) | Some (ONoContent c) | Some (OWriteHeader c) => c
+  | Some (ORedirect _ c) | Some (ONoContent c) | Some (OWriteHeader c)
+  | Some (OHTMLWith _ c) | Some (OFormatted c _) => c
   | _ => last_status 200 (before_commit ops)
   end.
 Proof. exact client_status_l. Qed.
